@@ -67,6 +67,20 @@ inductive ValidChain (V : Versions) : List Hdr → Prop
   | start (h : Hdr) : Clean h → (V h.currVersion).isSome → h.number < 2^62 → ValidChain V [h]
   | step (c p : Hdr) (rest : List Hdr) : ValidChain V (p :: rest) → Link V p c → ValidChain V (c :: p :: rest)
 
+/-- The chain-level entry points `(*BlockChain).VerifyYouVersionState{,2}`: the pure verifier folded along an
+import batch (oldest first) from the canonical parent; the result is `none` when every link is accepted, or the
+index of the first rejected header. (The harness compares the real entry points with exactly this fold, on one
+BlockChain across several calls.) -/
+def verifyBatch (V : Versions) : Hdr → List Hdr → Nat → Option Nat
+  | _, [], _ => none
+  | p, c :: rest, i =>
+    if (Gen.verify V p c).1 = .ok then verifyBatch V c rest (i + 1) else some i
+
+/-- Consecutive numbering of a batch on top of its parent, below the bound the theorems carry. -/
+def Numbered : Hdr → List Hdr → Prop
+  | _, [] => True
+  | p, c :: rest => c.number = p.number + 1 ∧ c.number < 2^62 ∧ Numbered c rest
+
 /-- Block numbers of the blocks that approved the proposal open at the head of the chain (newest first):
 the block that opened it, and every later block that raised the counter. -/
 def approvers : List Hdr → List Nat
